@@ -14,6 +14,7 @@ import ArchSim.Model.Fmt
 import ArchSim.Model.ToyAsm
 import ArchSim.Model.Asm
 import ArchSim.Model.Sim
+import ArchSim.Model.Views
 
 namespace Driver
 open ArchSim
@@ -148,40 +149,33 @@ def toyStr (t : Toy.TSim) : String :=
 
 def reprsStr (r : Fmt.Reprs) : String := s!"{hex r.bin},{hex r.udec},{hex r.hex},{hex r.sdec}"
 
-def upHex (w : Nat) (n : Nat) : String :=
-  String.ofList (Fmt.padLeft w (Fmt.natStr 16 n))
+/-- One row list joined by `;`, or the address error. -/
+def tableStr {α} (row : α → String) : Except Mem.AddrErr (List α) → String
+  | .error e => s!"E addr {e.address}"
+  | .ok l => String.intercalate ";" (l.map row)
 
-/-- `get_data_memory_entries()`: ascending ((address, "0x%08X"), representations of the word). -/
+/-- `get_register_entries()` rendered: the 32 rows of `Views.regTable`. -/
+def regTableStr (regs : Nat → Nat) : String :=
+  String.intercalate ";" ((Views.regTable regs).map reprsStr)
+
+/-- `get_data_memory_entries()` rendered: ascending ((address, "0x%08X"), representations of the word). -/
 def memTable (m : Mem.Mem) : String :=
-  match Mem.reprEntries m 32 with
-  | .error e => s!"E addr {e.address}"
-  | .ok l => String.intercalate ";" ((l.mergeSort (fun a b => a.1 ≤ b.1)).map fun (a, v) =>
-      s!"{a},{hex ("0x" ++ upHex 8 a.toNat)},{reprsStr (Fmt.nBitRepr v 32)}")
+  tableStr (fun (r : Views.DataRow) => s!"{r.addr},{hex r.addrText},{reprsStr r.reprs}") (Views.dataTable m)
 
-/-- `ToySimulation.get_register_representations()` -/
+def optReprsStr : Option Fmt.Reprs → String
+  | some r => reprsStr r
+  | none => "-"
+
+/-- `ToySimulation.get_register_representations()` rendered -/
 def toyRegTable (t : Toy.TSim) : String :=
-  let has := match t.s.maxPc with | some m => decide (m ≥ 0) | none => false
-  let e := "-"
-  let accu := if has then reprsStr (Fmt.nBitRepr t.s.accu 16) else e
-  let pc := if has then reprsStr (Fmt.nBitRepr t.s.pc 12) else e
-  let ir := match t.s.loaded with | some i => reprsStr (Fmt.nBitRepr (Toy.encode i) 16) | none => e
-  s!"accu={accu}|pc={pc}|ir={ir}"
+  let v := Views.toyRegs t
+  s!"accu={optReprsStr v.accu}|pc={optReprsStr v.pc}|ir={optReprsStr v.ir}"
 
-def toyInstrRepr (w : Nat) : String :=
-  let i := Toy.decode w
-  if i.opcode ≤ 7 then Toy.mnemonic i.opcode ++ " 0x" ++ upHex 3 i.addr else Toy.mnemonic i.opcode
-
-/-- `ToySimulation.get_memory_table_entries()` -/
+/-- `ToySimulation.get_memory_table_entries()` rendered -/
 def toyMemTable (t : Toy.TSim) : String :=
-  match Mem.reprEntries t.s.mem 16 with
-  | .error e => s!"E addr {e.address}"
-  | .ok l =>
-    let cyc := if t.nextCycle = 2 then "1" else "2"
-    String.intercalate ";" ((l.mergeSort (fun a b => a.1 ≤ b.1)).map fun (a, v) =>
-      let isInstr := match t.s.maxPc with | some m => decide (a ≤ m) | none => false
-      let ir := if isInstr then toyInstrRepr v else "-"
-      let mark := if t.s.addrCur = some a.toNat ∧ a ≥ 0 then cyc else ""
-      s!"{a},{hex ("0x" ++ upHex 3 a.toNat)},{reprsStr (Fmt.nBitRepr v 16)},{hex ir},{hex mark}")
+  tableStr (fun (r : Views.ToyRow) =>
+      s!"{r.addr},{hex r.addrText},{reprsStr r.reprs},{hex r.instr},{hex r.mark}")
+    (Views.toyMemTable t)
 
 def tyStr : Rv.Ty → String
   | .r => "r" | .i => "i" | .memI => "memI" | .shiftI => "shiftI" | .s => "s" | .b => "b" | .u => "u"
@@ -505,7 +499,7 @@ def process (st : State) (line : String) : State × String :=
   /- displayed tables (C17): register table, data-memory table, TOY registers and memory table -/
   | ["sim.regtable"] =>
     match st.sim with
-    | some (_, p) => (st, String.intercalate ";" ((List.range 32).map fun r => reprsStr (Fmt.nBitRepr (p.st.regs r) 32)))
+    | some (_, p) => (st, regTableStr p.st.regs)
     | none => (st, "bad-op")
   | ["sim.memtable"] =>
     match st.sim with
